@@ -39,6 +39,8 @@ pub enum Wl {
     /// a burst of datagrams near the largest size a 1452-byte path takes, then small ones
     W13,
     W14,
+    /// download: the server sends 60 kB, the client only acknowledges
+    W15,
 }
 
 pub fn plans(w: Wl, read: ReadMode) -> (Plan, Plan) {
@@ -95,6 +97,7 @@ pub fn plans(w: Wl, read: ReadMode) -> (Plan, Plan) {
             c.streams = vec![uni(3000, 1000)];
             c.datagrams = vec![720; 30];
         }
+        Wl::W15 => s.streams = vec![uni(60_000, 8000)],
         Wl::W10 => {
             c.streams = vec![uni(40_000, 4000)];
             s.stop = Some((0, 2500, 55));
@@ -609,6 +612,7 @@ pub fn wl_from_str(s: &str) -> Wl {
         "W8" => Wl::W8,
         "W9" => Wl::W9,
         "W10" => Wl::W10,
+        "W15" => Wl::W15,
         "W11" => Wl::W11,
         "W12" => Wl::W12,
         "W13" => Wl::W13,
